@@ -97,13 +97,19 @@ func randCond(rng *rand.Rand, lhs [][]srcTok, tags *[]string) []srcTok {
 		l := lhs[rng.Intn(len(lhs))]
 		switch k := rng.Intn(10); {
 		case k < 6:
-			out = append(out, l...)
-			out = append(out, opT(pick(rng, []string{"eq1", "eq2", "ne", "gt", "lt", "ge", "le"})))
 			lit := randLiteral(rng)
 			if lit.kind == "s" {
 				*tags = append(*tags, "cond-string-literal")
 			}
-			out = append(out, lit)
+			cmp := opT(pick(rng, []string{"eq1", "eq2", "ne", "gt", "lt", "ge", "le"}))
+			if rng.Intn(3) == 0 { // literal on the left
+				out = append(out, lit, cmp)
+				out = append(out, l...)
+				*tags = append(*tags, "cond-literal-first")
+			} else {
+				out = append(out, l...)
+				out = append(out, cmp, lit)
+			}
 		case k < 8:
 			out = append(out, l...)
 			out = append(out, kwT("LIKE"), strT('\'', pick(rng, []string{"%a%", "LIMIT%", "%ORDER BY%", "_x"})))
@@ -173,7 +179,11 @@ func genStmt(rng *rand.Rand) refStmt {
 		}
 	}
 	nfield := 0
+	// select expressions are pairwise distinct: the engine keys a map (SelectAlias) by expression text, so a
+	// repeated expression with two aliases is lossy there whatever the layout (not a layout question)
+	usedExpr := map[string]bool{}
 	field := func(e []srcTok, alias string) {
+		usedExpr[tokJoin(e, false)] = true
 		if nfield > 0 {
 			add(opT("comma"))
 		}
@@ -209,6 +219,9 @@ func genStmt(rng *rand.Rand) refStmt {
 			} else {
 				call = []srcTok{idT(fn), opT("lparen"), idT(pick(rng, columns)), opT("rparen")}
 			}
+			if usedExpr[tokJoin(call, false)] {
+				continue
+			}
 			a := freshAlias()
 			aggAliases = append(aggAliases, a)
 			aggCalls = append(aggCalls, call)
@@ -242,6 +255,10 @@ func genStmt(rng *rand.Rand) refStmt {
 				e = []srcTok{kwT("CASE"), kwT("WHEN"), idT(pick(rng, columns)), opT("gt"), numT("1"), kwT("THEN"),
 					strT('\'', pick(rng, trickyBodies)), kwT("ELSE"), strT('\'', "n"), kwT("END")}
 				tag("case-expression")
+			}
+			if usedExpr[tokJoin(e, false)] {
+				i--
+				continue
 			}
 			alias := ""
 			if rng.Intn(2) == 0 || e[0].kind == "s" || e[0].text == "CASE" || len(e) == 3 {
